@@ -8,6 +8,7 @@
 //!                                        2 = builder (handler, then capacity), 3 = QueuingMetricSink::from / ::with_capacity
 //!   actions = comma list of  E<h>[e|l|u|s] (emit on handle h; payload shape: empty string / 100 kB / non-ASCII / bare number) | C<h> (clone h) | D<h> (drop h) | U<h> (h dropped by a thread unwinding from a panic)
 //!             | Rk | Re<id> | Rp (release the metric in the gate with Ok / Err(id) / panic) | S (sample counters)
+//!             | F<h> (flush() on handle h; observation l, or le when it returned an error)
 //!   handles are numbered in creation order, 0 = the original
 //! observation:  A:<per action, comma list>|DL:<delivered>|H:<handled>|X:<final>
 //!   per action: E -> k | f (channel full) | k!<n> (Ok with a wrong length) | x (other error)
@@ -40,6 +41,10 @@ pub struct GateSt {
     pub handled: Vec<(u64, usize, ThreadId)>,
     pub flushes: Vec<ThreadId>,
     pub dropped: bool,
+    /// the scripting thread: a wrapped-sink emit arriving on it is logged and answered at once (it must never happen)
+    pub caller_thread: Option<ThreadId>,
+    /// set while the script itself calls flush() on a handle: the wrapped sink's flush then returns at once
+    pub flush_free: bool,
 }
 
 pub struct Gate {
@@ -62,6 +67,8 @@ impl Gate {
                 handled: vec![],
                 flushes: vec![],
                 dropped: false,
+                caller_thread: None,
+                flush_free: false,
             }),
             cv: Condvar::new(),
         })
@@ -77,6 +84,11 @@ impl MetricSink for GatedSink {
         let o;
         {
             let mut st = self.gate.m.lock().unwrap();
+            if st.caller_thread == Some(thread::current().id()) {
+                // the wrapped sink is being run on the scripting (caller's) thread: record it and do not wait in the gate
+                st.log.push((metric.to_string(), Outcome::Ok, thread::current().id()));
+                return Ok(metric.len());
+            }
             st.inside = Some(metric.to_string());
             st.entered += 1;
             self.gate.cv.notify_all();
@@ -130,6 +142,9 @@ impl GatedSink {
     /// processed (bounded, so that a caller that wrongly ends up here is reported as slow instead of hanging)
     fn flush_impl(&self) {
         let mut st = self.gate.m.lock().unwrap();
+        if st.flush_free {
+            return;      // the script's own flush() on a handle: expected on the caller's thread
+        }
         st.flushes.push(thread::current().id());
         let deadline = Instant::now() + SLOW + Duration::from_millis(100);
         while st.inside.is_some() && !st.auto {
@@ -265,14 +280,51 @@ impl Rig {
             }
         }
         if self.cap == Some(0) {
-            // rendezvous channel: give the worker time to block in recv()
-            for _ in 0..20 {
+            // rendezvous channel: try_send succeeds only while the worker is blocked in recv().  Wait until every other
+            // thread of this process is asleep (seen twice in a row), not for a fixed time: under load a runnable but
+            // descheduled worker would otherwise be mistaken for a busy one
+            let mut calm = 0;
+            while calm < 2 && Instant::now() < deadline {
+                if others_asleep() {
+                    calm += 1;
+                } else {
+                    calm = 0;
+                }
                 thread::yield_now();
+                if calm < 2 {
+                    thread::sleep(Duration::from_micros(200));
+                }
             }
-            thread::sleep(Duration::from_millis(2));
         }
         true
     }
+}
+
+/// true when every thread of this process other than the caller is in state S (interruptible sleep) - /proc/self/task
+pub fn others_asleep() -> bool {
+    let me = std::fs::read_link("/proc/thread-self")
+        .ok()
+        .and_then(|p| p.file_name().map(|f| f.to_string_lossy().to_string()));
+    let dir = match std::fs::read_dir("/proc/self/task") {
+        Ok(d) => d,
+        Err(_) => return true,
+    };
+    for ent in dir.flatten() {
+        let name = ent.file_name().to_string_lossy().to_string();
+        if Some(&name) == me.as_ref() {
+            continue;
+        }
+        if let Ok(stat) = std::fs::read_to_string(ent.path().join("stat")) {
+            // pid (comm) state ...   - comm may contain spaces and parentheses: the state follows the LAST ')'
+            if let Some(i) = stat.rfind(')') {
+                let state = stat[i + 1..].trim_start().chars().next().unwrap_or('S');
+                if state != 'S' && state != 'Z' && state != 'X' {
+                    return false;
+                }
+            }
+        }
+    }
+    true
 }
 
 /// Concurrent soak: `QS <cap|u> <producers> <emits per producer> <seed>`: every producer thread emits through its
@@ -431,6 +483,7 @@ pub fn run_case(line: &str) -> String {
     let ctor: u8 = t[2].parse().unwrap();
     let me = thread::current().id();
     let mut rig = Rig::with_ctor(cap, ctor);
+    rig.gate.m.lock().unwrap().caller_thread = Some(me);
     rig.settle();
     let mut out: Vec<String> = vec![];
     let mut attempt = 0usize;
@@ -484,6 +537,14 @@ pub fn run_case(line: &str) -> String {
                 let x = rig.handles[h].take().expect("double drop");
                 drop(x);
                 "d".to_string()
+            }
+            "F" => {
+                // QueuingMetricSink::flush on a live handle: flushes the wrapped sink, touches nothing in the queue
+                let h: usize = arg.parse().unwrap();
+                rig.gate.m.lock().unwrap().flush_free = true;
+                let r = rig.handles[h].as_ref().expect("flush on a dropped handle").flush();
+                rig.gate.m.lock().unwrap().flush_free = false;
+                if r.is_ok() { "l".to_string() } else { "le".to_string() }
             }
             "U" => {
                 // the handle is dropped by a thread that is unwinding from a panic of its own
@@ -546,7 +607,7 @@ pub fn run_case(line: &str) -> String {
             }
             _ => panic!("bad action {}", a),
         };
-        if (op == "E" || op == "D" || op == "U" || op == "C") && t0.elapsed() > SLOW {
+        if (op == "E" || op == "D" || op == "U" || op == "C" || op == "F") && t0.elapsed() > SLOW {
             o.push_str("!slow");
         }
         if op != "S" && !rig.settle() {
